@@ -21,8 +21,7 @@ TABLE = {
         ("s", {"measure": {"scale_typegen::to_tokens": 0, "ToTokensWithSettings::to_token_stream": 0, "CompositeIR::enum_field_tokens": 0,
                            "CompositeIR::struct_field_tokens": 0}, "trampoline": ["ToTokensWithSettings::to_token_stream"]}),
     frozenset(["substitutes::replace_path_params_recursively"]): ("s", {"measure": {"substitutes::replace_path_params_recursively": 0}}),
-    frozenset(["TypePath::parent_type_params_recurse", "TypePathType::parent_type_params"]):
-        ("s", {"measure": {"TypePath::parent_type_params_recurse": 0, "TypePathType::parent_type_params": 0}}),
+    frozenset(["TypePath::parent_type_params_recurse"]): ("s", {"measure": {"TypePath::parent_type_params_recurse": 0}}),
     frozenset(["GenericsList::index_for_type_id"]): ("s", {"measure": {"GenericsList::index_for_type_id": 0}}),
     frozenset(["GenericsList::index_for_type_name"]): ("s", {"measure": {"GenericsList::index_for_type_name": 0}}),
     frozenset(["ModuleIR::get_or_insert_submodule"]): ("s", {"measure": {"ModuleIR::get_or_insert_submodule": 1}}),
@@ -224,6 +223,25 @@ def _calls_into(ctx, fn, comp, N=None, apply_closures=True):
     return out
 
 
+def _literal_items(t):
+    """the items of a container written out in place (vec![..], [..], Vec::new(), or a match / if between such), else None"""
+    if t[0] == "call" and t[1] in ("vec!", "Vec::new"):
+        return list(t[2])
+    if t[0] == "array":
+        return list(t[1])
+    if t[0] in ("match", "if"):
+        out = []
+        for a in ([x[2] for x in t[2]] if t[0] == "match" else [t[2], t[3]]):
+            if a[0] == "opaque" and a[1] == "diverge":
+                continue
+            its = _literal_items(a)
+            if its is None:
+                its = [("elem", a)]          # an arm that is some other container: its elements
+            out.extend(its)
+        return out
+    return None
+
+
 def descent_depth(N, t, root):
     """number of strict projection steps from parameter `root` to term t, or None if t is not rooted there"""
     steps = 0
@@ -231,6 +249,12 @@ def descent_depth(N, t, root):
         k = t[0]
         if k == "param":
             return steps if t[1] == root else None
+        if k == "elem" and _literal_items(t[1]) is not None:
+            # an element of a container written out in place (`vec![a, b]`, or a choice between such): one of its items, no step
+            ds = [descent_depth(N, a, root) for a in _literal_items(t[1])]
+            if any(d is None for d in ds):
+                return None
+            return steps + (min(ds) if ds else 99)         # an empty container has no element to descend into
         if k in ("field", "proj", "elem", "rest", "rindex"):
             steps += 1
             t = t[1]
